@@ -111,6 +111,7 @@ func round6(w *World, r *Report) {
 		rulePortsKeptForEveryProtocol(w, r, "C08", "R08.11")
 		ruleNewAppPFDIsFresh(w, r, "C08", "R08.12")
 	case "C10":
+		ruleNilResultChecked(w, r, "R10.20", receivePathFuncs(w, "C10"))
 		ruleWorkerAlwaysReports(w, r, "C10", "R10.19")
 		ruleNoRelock(w, r, "R10.18")
 		r.withOnly("R10.16", onlyRule("R05.2"), func() { ruleC05(w, r) })
@@ -147,7 +148,11 @@ func round6(w *World, r *Report) {
 		r.withOnly("R11.16", onlyRule("R05.2"), func() { ruleC05(w, r) })
 		ruleNoCloseOfWorkerChannel(w, r, "R11.17")
 		r.Explanation += " R11.15 crash obligations (index, nil, type assertion, exit, division) of every method of a shared object reachable from the receive path (C01 R01.1 restricted to UP4, bess, IPPool, FTEIDGenerator, P4rtClient, P4rtTranslator, metrics.Service, upf); R11.16 an ending association returns what it holds in the shared pools on every path (C05 R05.2);"
+	case "C12":
+		ruleTimersAsConfigured(w, r, "C12", "R12.9")
+		r.Explanation += " R12.9 resp_timeout and heart_beat_interval are used exactly as parsed;"
 	case "C13":
+		ruleStoredIsHandedOn(w, r, "C13", "R13.18")
 		ruleNoLockHeldAcrossIteration(w, r, "R13.17")
 		r.withRule("R13.15", func() { ruleC04Shared(w, r) })
 		r.withOnly("R13.16", onlyRule("R03.6"), func() { ruleC03Handlers(w, r) })
@@ -156,11 +161,13 @@ func round6(w *World, r *Report) {
 		ruleApplyActionFirstOctet(w, r, "C13", "R13.14")
 		r.Explanation += " R13.12 the limiter's key is the UP SEID: it is drawn from the connection's random generator and tested against the store (C07 R07.5); R13.13 the session copy the report handler reads holds every rule (C05 R05.6); R13.14 the apply-action flags are those of the IE's first octet;"
 	case "C14":
+		ruleSenderUsesCurrentClient(w, r, "C14", "R14.15")
 		r.withOnly("R14.14", onlyRule("R15.4"), func() { ruleC15(w, r) })
 		ruleDeadlinePerOp(w, r, "C14", "R14.12", []string{"pfcpiface.(*bess).endMarkerSendLoop"})
 		ruleSndemIndependentOfOrder(w, r, "C14", "R14.13")
 		r.Explanation += " R14.12 a deadline on the end-marker socket is armed per write, never once before the loop; R14.13 the send-end-marker flag depends on the SNDEM bit alone, not on which IEs were seen before it;"
 	case "C15":
+		ruleEveryFarRegistersItsPeer(w, r, "C15", "R15.13")
 		r.withRule("R15.11", func() { ruleC06SeidEntropy(w, r) })
 		ruleReleaseOncePerSession(w, r, "C15", "R15.12")
 		r.withOnly("R15.8", onlyRule("R03.6"), func() { ruleC03Handlers(w, r) })
@@ -175,6 +182,7 @@ func round6(w *World, r *Report) {
 		r.withRule("R16.13", func() { ruleC09MeterArray(w, r) })
 		r.Explanation += " R16.12 only values that came out of a pool go back into it (indices stay inside the array the pool was sized for; C15 R15.1); R16.13 a meter entry is written to the array its cell index belongs to (C09 R09.9);"
 	case "C01":
+		ruleNilResultChecked(w, r, "R01.1.NILRES", receivePathFuncs(w, "C01"))
 		r.withOnly("R01.2.UNLOCK", onlyRule("R11.2"), func() { ruleC11(w, r) })
 		funcs := receivePathFuncs(w, "C01")
 		ruleTickerIntervalPositive(w, r, "R01.1.TICK", funcs)
@@ -1780,4 +1788,214 @@ func ruleNoLockHeldAcrossIteration(w *World, r *Report, rule string) {
 		})
 	}
 	r.floor(rule+" lock acquisitions", n, 20)
+}
+
+// ruleNilResultChecked: a repo function that can return nil for an interface / pointer result (and is not the
+// (value, error) idiom, which R01.1.NIL covers) has its result tested before it is used as a receiver.
+func ruleNilResultChecked(w *World, r *Report, rule string, funcs map[*ssa.Function]bool) {
+	// producers: result index -> true
+	prod := map[*ssa.Function][]int{}
+	for g := range w.allFuncs() {
+		if !w.isRepoFunc(g) || g.Signature.Results().Len() < 2 {
+			continue
+		}
+		res := g.Signature.Results()
+		if isErrorType(res.At(res.Len() - 1).Type()) {
+			continue
+		}
+		for idx := 0; idx < res.Len(); idx++ {
+			t := res.At(idx).Type().Underlying()
+			_, isI := t.(*types.Interface)
+			_, isP := t.(*types.Pointer)
+			if !isI && !isP {
+				continue
+			}
+			nilRet, nonNil := false, false
+			for _, ret := range returnsOf(g) {
+				if idx < len(ret.Results) {
+					if isNilConst(res0(ret, idx)) {
+						nilRet = true
+					} else {
+						nonNil = true
+					}
+				}
+			}
+			if nilRet && nonNil {
+				prod[g] = append(prod[g], idx)
+			}
+		}
+	}
+	n := 0
+	for _, f := range sortedFuncs(w, funcs) {
+		f := f
+		allInstrs(f, func(i ssa.Instruction) {
+			c, ok := i.(*ssa.Call)
+			if !ok || staticCallee(c) == nil || len(prod[staticCallee(c)]) == 0 {
+				return
+			}
+			for _, idx := range prod[staticCallee(c)] {
+				v := extractOf(c, idx)
+				if v == nil || v.Referrers() == nil {
+					continue
+				}
+				same := func(x ssa.Value) bool { return x == v }
+				for _, ref := range *v.Referrers() {
+					use, isUse := ref.(ssa.Instruction)
+					if !isUse {
+						continue
+					}
+					deref := false
+					switch u := ref.(type) {
+					case ssa.CallInstruction:
+						deref = u.Common().IsInvoke() && u.Common().Value == v
+					case *ssa.FieldAddr:
+						deref = u.X == v
+					case *ssa.UnOp:
+						deref = u.X == v && u.Op.String() == "*"
+					}
+					if !deref {
+						continue
+					}
+					n++
+					hit := reach(f, c, func(j ssa.Instruction) bool { return j == use }, nil, func(a, b *ssa.BasicBlock) bool {
+						return nilnessEdge(a, b, same, false)
+					})
+					r.check(hit == nil, rule, w.FuncName(f), "the result of "+staticCallee(c).Name()+" is tested for nil before it is used", w.Pos(use.Pos()), "behind a != nil edge", staticCallee(c).Name()+" can return nil (the exchange was cut short by a shutdown, no reply and no time-out), and the result is used here without a nil test — also when it is only an argument of a log call, which is evaluated at every log level: a nil dereference in a goroutine nothing recovers")
+				}
+			}
+		})
+	}
+	if n == 0 {
+		r.ok(rule, "receive path", "no possibly-nil result of a repo function is used as a receiver", "-", fmt.Sprintf("%d producers", len(prod)))
+	}
+}
+
+// ruleTimersAsConfigured: resp_timeout and heart_beat_interval are used as parsed (the loader validated exactly
+// these strings with time.ParseDuration): no rounding between the parse and the field.
+func ruleTimersAsConfigured(w *World, r *Report, prop, rule string) {
+	f := w.Fn(prop, "pfcpiface.NewUPF")
+	n := 0
+	for _, g := range withClosures(f) {
+		allInstrs(g, func(i ssa.Instruction) {
+			st, ok := i.(*ssa.Store)
+			if !ok || !(loadsFieldAddr(st.Addr, "respTimeout") || loadsFieldAddr(st.Addr, "hbInterval")) {
+				return
+			}
+			n++
+			good := true
+			what := ""
+			var walk func(v ssa.Value, d int)
+			seen := map[ssa.Value]bool{}
+			walk = func(v ssa.Value, d int) {
+				if v == nil || seen[v] || d > 6 {
+					return
+				}
+				seen[v] = true
+				switch x := v.(type) {
+				case *ssa.Phi:
+					for _, e := range x.Edges {
+						walk(e, d+1)
+					}
+				case *ssa.Const:
+				case *ssa.Extract:
+					if c, ok := x.Tuple.(*ssa.Call); ok && staticCallee(c) != nil && staticCallee(c).Name() == "ParseDuration" {
+						return
+					}
+					good, what = false, symOf(v).String()
+				case *ssa.UnOp:
+					if cell := cellOf(x.X); cell != nil {
+						for _, s2 := range storesTo(cell) {
+							walk(s2.Val, d+1)
+						}
+						return
+					}
+					good, what = false, symOf(v).String()
+				default:
+					good, what = false, symOf(v).String()
+				}
+			}
+			walk(st.Val, 0)
+			r.check(good, rule, w.FuncName(g), "the timer is the configured duration, as parsed", w.Pos(st.Pos()), "time.ParseDuration(conf…)", "the timer is "+what+", not the parsed configuration value: a resp_timeout below the rounding unit becomes 0 (all 1+N transmissions leave back to back and the peer is declared dead at once), any other is shortened")
+		})
+	}
+	r.floor(rule+" timer fields set in NewUPF", n, 2)
+}
+
+// ruleStoredIsHandedOn: Update{PDR,FAR,QER} store *f and the caller programs *f: nothing is written into f after
+// the store (it would reach the datapath and not the session record, or the other way round).
+func ruleStoredIsHandedOn(w *World, r *Report, prop, rule string) {
+	n := 0
+	for _, name := range []string{"pfcpiface.(*PFCPSession).UpdateFAR", "pfcpiface.(*PFCPSession).UpdateQER"} {
+		f := w.FnOpt(name)
+		if f == nil || len(f.Params) < 2 {
+			continue
+		}
+		param := f.Params[1]
+		if _, isPtr := param.Type().Underlying().(*types.Pointer); !isPtr {
+			continue
+		}
+		var elemStores []ssa.Instruction
+		allInstrs(f, func(i ssa.Instruction) {
+			if st, ok := i.(*ssa.Store); ok {
+				if _, ok := st.Addr.(*ssa.IndexAddr); ok {
+					elemStores = append(elemStores, i)
+				}
+			}
+		})
+		for _, es := range elemStores {
+			n++
+			late := reach(f, es, func(j ssa.Instruction) bool {
+				st, ok := j.(*ssa.Store)
+				if !ok {
+					return false
+				}
+				fa, ok := st.Addr.(*ssa.FieldAddr)
+				return ok && fa.X == ssa.Value(param)
+			}, isReturn, nil)
+			pos := w.Pos(es.Pos())
+			if late != nil {
+				pos = w.Pos(late.Pos())
+			}
+			r.check(late == nil, rule, w.FuncName(f), "the rule handed to the datapath is the rule that was stored", pos, "no write into the parsed rule after it was stored", "the parsed rule is modified after its copy went into the session: the datapath is programmed with a value (e.g. the action carried over from the old rule) that the stored rule does not have — what the agent later decides from the record (is notification asked for?) disagrees with what the datapath does")
+		}
+	}
+	r.floor(rule+" element stores in the update functions", n, 1)
+}
+
+// ruleSenderUsesCurrentClient: the UP4 end-marker sender runs for the life of the agent while the P4Runtime
+// client is replaced on every reconnect: the client is read for each packet.
+func ruleSenderUsesCurrentClient(w *World, r *Report, prop, rule string) {
+	f := w.Fn(prop, "pfcpiface.(*UP4).endMarkerSendLoop")
+	n := 0
+	allInstrs(f, func(i ssa.Instruction) {
+		c, ok := i.(ssa.CallInstruction)
+		if !ok || !callNamed("SendPacketOut")(i) || len(c.Common().Args) == 0 {
+			return
+		}
+		n++
+		recv := c.Common().Args[0]
+		ld, isLd := recv.(*ssa.UnOp)
+		good := isLd && loadsField(recv, "p4client") && inCycle(ld.Block(), ld.Block())
+		r.check(good, rule, w.FuncName(f), "each End Marker goes out through the current P4Runtime client", w.Pos(c.Pos()), "up4.p4client read in the loop", "the sender uses "+symOf(recv).String()+" read once before the loop: after the first reconnect (setupChannel installs a new client, the loop is started only once) every End Marker is written to the stream of the connection that is gone")
+	})
+	r.floor(rule+" packet-out calls in the sender", n, 1)
+}
+
+// ruleEveryFarRegistersItsPeer: every FAR that forwards to the access side with a TEID becomes a user of its
+// tunnel peer (one reference per FAR is what removeGTPTunnelPeer drops).
+func ruleEveryFarRegistersItsPeer(w *World, r *Report, prop, rule string) {
+	f := w.Fn(prop, "pfcpiface.(*UP4).updateTunnelPeersBasedOnFARs")
+	cond := func(v ssa.Value) bool {
+		bo, ok := v.(*ssa.BinOp)
+		if !ok {
+			return false
+		}
+		return loadsField(bo.X, "tunnelTEID") || strings.HasSuffix(symOf(bo.X).String(), ".tunnelTEID")
+	}
+	n, miss := edgeAlwaysLeadsTo(f, cond, true, callNamed("addOrUpdateGTPTunnelPeer"))
+	pos := w.Pos(f.Pos())
+	if miss != nil {
+		pos = w.Pos(posNear(miss))
+	}
+	r.check(n > 0 && miss == nil, rule, w.FuncName(f), "every tunnelled downlink FAR is registered with its tunnel peer", pos, "the FAR's own fields alone decide", ifelse(n == 0, "the loop no longer tests the FAR's TEID", "a FAR that forwards to the access side with a TEID can be skipped (a further condition, e.g. 'this base station was already written for this request'): it never becomes a user of the peer, and removing the FAR that did register deletes the peer entry and frees its ID while this FAR still points to it"))
 }
